@@ -30,7 +30,7 @@ def validate(mode: str, recs: list[dict], wd: Path, shards: int = 12, module: st
         inp, outp = wd / f"{mode}-in-{s}.json", wd / f"{mode}-out-{s}.json"
         inp.write_text(json.dumps([recs[i] for i in parts[s]]))
         _, v = run_trace_tlc(module, cfg, inp, outp, name=f"{module}-{mode}-{s}",
-                             extra_env={"DB_FILE": str(wd / "db.json"), "MODE": mode}, timeout=3000)
+                             extra_env={"DB_FILE": str(wd / "db.json"), "MODE": mode}, timeout=3000, heap="1g")
         if v["n"] != len(parts[s]):
             raise MachineryError(f"{mode}: shard {s} judged {v['n']} of {len(parts[s])} records")
         return [(parts[s][b["k"] - 1], b["v"]) for b in v["bad"]]
